@@ -639,6 +639,38 @@ pub fn c08(cx: &mut Ctx) {
             }
         }
     }
+    // a close-delimited body on a connection that already has every other reason to close: HTTP/1.0 request,
+    // Connection: close on both sides, an Expect that was refused (with and without fields, seen in time or not)
+    for reqv in ["HTTP/1.0", "HTTP/1.1"] {
+        for creq in [false, true] {
+            for (head, route) in [("HTTP/1.0 403 No\r\nConnection: close\r\n\r\n", 0), ("HTTP/1.1 403 No\r\nConnection: close\r\nX: y\r\n\r\n", 0), ("HTTP/1.0 200 OK\r\nconnection: close\r\n\r\n", 1), ("HTTP/1.1 403\r\n\r\n", 0), ("HTTP/1.1 403 No\r\nConnection: close\r\n\r\n", 2)] {
+                cx.case("allclose");
+                let mut hs: Vec<(&str, &[u8])> = vec![("content-length", b"3"), ("expect", b"100-continue")];
+                if creq { hs.insert(0, ("connection", b"close")); }
+                cx.rec.new_flow(&format!("POST {} http://a.test/p {}", reqv, super::hdrs(&hs)));
+                cx.op("proceed"); cx.op("write 4096"); cx.op("proceed");
+                if cx.rec.state() != "await100" { continue; }
+                // route 0: the refusal is seen while awaiting; 1: the caller gave up, sent the body, the answer follows;
+                // 2: seen while awaiting, presented twice
+                if route != 1 { cx.op(&format!("read100 {}", hx(head.as_bytes()))); }
+                if route == 2 { cx.op(&format!("read100 {}", hx(head.as_bytes()))); }
+                cx.op("proceed");
+                if cx.rec.state() == "sendBody" { cx.op("bwrite 616263 100"); cx.op("proceed"); }
+                if cx.rec.state() != "recvResponse" { continue; }
+                cx.op(&format!("resp {}", hx(head.as_bytes())));
+                cx.op("proceed");
+                if cx.rec.state() != "recvBody" { continue; }
+                cx.meta("close");
+                cx.op("mode");
+                cx.op(&format!("bread {} 100", hx(b"until the end")));
+                cx.op(&format!("bread {} 4", hx(b"more")));
+                cx.op("canproceed");
+                cx.op("proceed");
+                cx.op("close?");
+                cx.op("reason");
+            }
+        }
+    }
     // random length-delimited
     let cnt = if cx.thorough { 3000 } else { 300 };
     for _ in 0..cnt {
